@@ -43,8 +43,18 @@ func VerifUseRealAdminService(p *GoogleProvider, client *http.Client) error {
 		p.AdminService = gs
 	}
 	gs.adminService = svc
-	at := time.Date(2030, 1, 1, 0, 0, 0, 0, time.UTC)
-	for _, holder := range []interface{}{p, gs} {
+	VerifFreezeBreakerClocks(p, time.Date(2030, 1, 1, 0, 0, 0, 0, time.UTC))
+	return nil
+}
+
+// VerifFreezeBreakerClocks sets the (frozen) wall clock of every circuit breaker the provider and its
+// admin service hold.
+func VerifFreezeBreakerClocks(p *GoogleProvider, at time.Time) {
+	holders := []interface{}{p}
+	if gs, ok := p.AdminService.(*GoogleAdminService); ok {
+		holders = append(holders, gs)
+	}
+	for _, holder := range holders {
 		v := reflect.ValueOf(holder).Elem()
 		for i := 0; i < v.NumField(); i++ {
 			f := v.Field(i)
@@ -53,5 +63,4 @@ func VerifUseRealAdminService(p *GoogleProvider, client *http.Client) error {
 			}
 		}
 	}
-	return nil
 }
